@@ -2,6 +2,7 @@ package main
 
 import (
 	"go/token"
+	"regexp"
 	"strings"
 
 	"golang.org/x/tools/go/ssa"
@@ -56,8 +57,103 @@ func checkC19(c *Ctx) {
 			cal := cc.StaticCallee()
 			return cal != nil && cal.Name() == "ForEach"
 		})) == 1
-		_ = fl
-		c.Check(ok && forEach, "C19.2", "BitfieldFromBytes: len recounted from the bytes", p.FuncPos(fb), "len is the number of ForEach callbacks over the given bytes (one per set bit)", "no recount found")
+		recount := ok && forEach
+		if !recount {
+			// alternative idiom: len = sum over the bytes of bits.OnesCount8(byte)
+			eachInstr(fb, func(in ssa.Instruction) {
+				st, isSt := in.(*ssa.Store)
+				if !isSt {
+					return
+				}
+				fa, isFA := st.Addr.(*ssa.FieldAddr)
+				if !isFA || fieldName(fa.X.Type(), fa.Field) != kBF+"len" {
+					return
+				}
+				ph, isPhi := st.Val.(*ssa.Phi)
+				if !isPhi || len(ph.Edges) != 2 {
+					return
+				}
+				for i := 0; i < 2; i++ {
+					init, isC := ph.Edges[i].(*ssa.Const)
+					bo, isB := ph.Edges[1-i].(*ssa.BinOp)
+					if !isC || init.Value == nil || init.Int64() != 0 || !isB || bo.Op != token.ADD {
+						continue
+					}
+					other := bo.Y
+					if bo.Y == ph {
+						other = bo.X
+					} else if bo.X != ph {
+						continue
+					}
+					if cv, isConv := other.(*ssa.Convert); isConv {
+						other = cv.X
+					}
+					call, isCall := other.(*ssa.Call)
+					if !isCall || call.Call.StaticCallee() == nil || !strings.HasPrefix(call.Call.StaticCallee().String(), "math/bits.OnesCount") {
+						continue
+					}
+					arg := call.Call.Args[0]
+					if cv, isConv := arg.(*ssa.Convert); isConv {
+						arg = cv.X
+					}
+					if regexp.MustCompile(`^p0\[\(phi@b\d+i\d+ \+ c:1\)\]$`).MatchString(fl.K.Key(arg)) {
+						recount = true
+					}
+				}
+			})
+		}
+		if !recount {
+			// in-place form: bf := Bitfield{data: b, len: 0}; for _, octet := range b { bf.len += bits.OnesCount8(octet) }
+			elemRe := regexp.MustCompile(`^p0\[\(phi@b\d+i\d+ \+ c:1\)\]$`)
+			nInit, nAcc, bad := 0, 0, 0
+			eachInstr(fb, func(in ssa.Instruction) {
+				st, isSt := in.(*ssa.Store)
+				if !isSt {
+					return
+				}
+				fa, isFA := st.Addr.(*ssa.FieldAddr)
+				if !isFA || fieldName(fa.X.Type(), fa.Field) != kBF+"len" {
+					return
+				}
+				if cst, isC := st.Val.(*ssa.Const); isC && cst.Value != nil && cst.Int64() == 0 {
+					nInit++
+					return
+				}
+				bo, isB := st.Val.(*ssa.BinOp)
+				if !isB || bo.Op != token.ADD {
+					bad++
+					return
+				}
+				ld, other := bo.X, bo.Y
+				if u, isU := ld.(*ssa.UnOp); !isU || fl.K.Key(u.X) != fl.K.Key(fa) {
+					ld, other = bo.Y, bo.X
+				}
+				u, isU := ld.(*ssa.UnOp)
+				if !isU || fl.K.Key(u.X) != fl.K.Key(fa) {
+					bad++
+					return
+				}
+				if cv, isConv := other.(*ssa.Convert); isConv {
+					other = cv.X
+				}
+				call, isCall := other.(*ssa.Call)
+				if !isCall || call.Call.StaticCallee() == nil || !strings.HasPrefix(call.Call.StaticCallee().String(), "math/bits.OnesCount") {
+					bad++
+					return
+				}
+				arg := call.Call.Args[0]
+				if cv, isConv := arg.(*ssa.Convert); isConv {
+					arg = cv.X
+				}
+				if elemRe.MatchString(fl.K.Key(arg)) {
+					nAcc++
+				} else {
+					bad++
+				}
+			})
+			recount = nInit == 1 && nAcc == 1 && bad == 0
+		}
+		c.Check(recount, "C19.2", "BitfieldFromBytes: len recounted from the bytes", p.FuncPos(fb), "len is the number of set bits of the given bytes (one ForEach callback per set bit, or the sum of bits.OnesCount8 over the bytes)", "no recount found")
 	}
 
 	// C19.3 index/id bijection
@@ -248,9 +344,10 @@ func c19Multi(c *Ctx) {
 		}
 	}
 	// (d) Contains is an order-independent membership test (signer lists are in arrival order, never sorted)
-	for _, fn := range p.ModFuncs {
-		if fn.Name() != "Contains" || fn.Origin() == nil || !strings.Contains(fn.String(), "crypto.Multi[") {
-			continue
+	for _, fn := range []*ssa.Function{p.Method("security/crypto", "Multi", "Contains")} {
+		if fn == nil {
+			c.Unresolved("C19.1", "Multi.Contains", "anchor missing")
+			break
 		}
 		ok := false
 		detail := "no full scan recognised"
